@@ -13,7 +13,7 @@ from anytree.exporter import MermaidExporter
 from .. import forest, refs, shapes, strategies
 from ..core import Violation
 from . import c06
-from .c12 import check_gc, check_locale, NAME, NODE_CLASSES, TOKEN, decode_name, exotic_names, aborted_iterations, esc, expected_structure, fractional, special_names, tripwired
+from .c12 import check_gc, check_locale, NAME, NODE_CLASSES, TOKEN, decode_name, exotic_names, aborted_iterations, esc, expected_structure, falsify, fractional, readings, special_names, tripwired
 
 PROP_ID = "C13"
 LEVEL = "exploration"
@@ -81,7 +81,7 @@ def _once(case, acc, tree, labels):
         if key in case:
             kwargs[key] = case[key]
     trip = {"left": None}
-    kwargs = tripwired(kwargs, trip)
+    kwargs = falsify(tripwired(kwargs, trip), case)
     if case.get("positional"):
         # every option passed by position, in the order of the released signature
         order = ["graph", "name", "options", "indent", "nodenamefunc", "nodefunc", "edgefunc", "filter_", "stop", "maxlevel"]
@@ -94,22 +94,23 @@ def _once(case, acc, tree, labels):
     header = "%s %s" % (case.get("graph", "graph"), case.get("name", "TD"))
     options = case.get("options") or []
 
-    level = [maxlevel]
+    level = [maxlevel, stop_ids, hide_ids]
 
     def verify(lines, known_ident, phase):
-        """A maxlevel that is not a whole number has no prescribed reading (the statement says 'depth below maxlevel', the
-        iterators count levels from 1 and stop above it): the output must be right for ONE reading - node lines and edge
-        lines have to agree on it - and that is all that is asked."""
-        if not fractional(maxlevel):
-            return verify_at(lines, known_ident, phase)
+        """A maxlevel that is not a whole number and predicate objects that are falsy have no prescribed reading (the
+        statement says 'depth below maxlevel', the iterators count levels from 1; 'x or default' skips a falsy callable):
+        the output must be right for ONE reading - node and edge statements have to agree on it - and no more is asked."""
+        options_ = readings(case, maxlevel, stop_ids, hide_ids)
         first = None
-        for reading in (math.floor(maxlevel), math.ceil(maxlevel)):
-            level[0] = reading
+        for reading in options_:
+            level[:] = reading
             try:
                 return verify_at(lines, known_ident, phase)
             except Violation as exc:
+                if len(options_) == 1:
+                    raise
                 first = first or exc
-        raise Violation(first.clause, "maxlevel=%r read as %d and as %d: %s" % (maxlevel, math.floor(maxlevel), math.ceil(maxlevel), first.detail))
+        raise Violation(first.clause, "no single reading of maxlevel=%r / the falsy predicates explains the output: %s" % (maxlevel, first.detail))
 
     def verify_at(lines, known_ident, phase):
         """Complete oracle for one iteration of the exporter against the CURRENT tree and admission sets."""
@@ -120,7 +121,7 @@ def _once(case, acc, tree, labels):
         if body[: len(options)] != [indent + o for o in options]:
             raise Violation("options", "%s: option lines %r" % (where, body[: len(options)]))
         body = body[len(options):]
-        declared, edges, _ = expected_structure(tree, start, stop_ids, hide_ids, level[0])
+        declared, edges, _ = expected_structure(tree, start, level[1], level[2], level[0])
         if len(body) < len(declared):
             raise Violation("node-lines", "%s: %d lines for %d declared nodes: %r" % (where, len(body), len(declared), body))
         ident = {}
@@ -214,6 +215,7 @@ def _once(case, acc, tree, labels):
     acc.tag("cases_with_edges", bool(edges))
     acc.tag("maxlevel_0", maxlevel == 0)
     acc.tag("maxlevel_not_a_whole_number", fractional(maxlevel))
+    acc.tag("falsy_predicate_objects", bool(case.get("falsy_predicates")))
     acc.tag("custom_functions", bool(spec))
 
 
@@ -255,6 +257,10 @@ def _fraction_cases(max_nodes):
                 for stop, hide in [([], [])] + [([x], []) for x in sub[1:]] + [([], [x]) for x in sub]:
                     k += 1
                     yield {"shape": forest.to_list(shape), "names": special_names(size, k), "start": start, "stop": stop, "hide": hide, "maxlevel": half + 0.5, "truth": k, "positional": k % 4 == 0, "indent": k % 3, "cls": "Node"}
+            # predicate objects that are falsy: used or ignored, but the same way for node lines and edge lines
+            for stop, hide in [([x], []) for x in sub[1:]] + [([], [x]) for x in sub] + [([x], [y]) for x in sub[1:] for y in sub if x != y]:
+                k += 1
+                yield {"shape": forest.to_list(shape), "names": special_names(size, k), "start": start, "stop": stop, "hide": hide, "maxlevel": None if k % 3 else 2, "truth": k, "positional": k % 4 == 0, "indent": k % 3, "cls": "Node", "falsy_predicates": True}
 
 
 @st.composite
